@@ -7,6 +7,7 @@ package prototext
 import (
 	"fmt"
 	"strconv"
+	"strings"
 	"unicode/utf8"
 
 	"google.golang.org/protobuf/encoding/protowire"
@@ -343,11 +344,58 @@ func (e encoder) marshalUnknown(b []byte) {
 
 // marshalAny marshals the given google.protobuf.Any message in expanded form.
 // It returns true if it was able to marshal, else false.
+// isExpandableTypeURL reports whether url can be written in the expanded Any
+// form [url]{...}, following the grammar of type names in the text format
+// (see text.Decoder.parseTypeName): an optional prefix of URL characters and
+// percent escapes that does not start with '/', then after the last '/' a
+// dotted name of non-empty identifiers.
+func isExpandableTypeURL(url string) bool {
+	isNameChar := func(b byte) bool {
+		return b == '-' || b == '_' || ('0' <= b && b <= '9') || ('a' <= b && b <= 'z') || ('A' <= b && b <= 'Z')
+	}
+	isHex := func(b byte) bool {
+		return ('0' <= b && b <= '9') || ('a' <= b && b <= 'f') || ('A' <= b && b <= 'F')
+	}
+	name := url
+	if i := strings.LastIndexByte(url, '/'); i >= 0 {
+		prefix := url[:i]
+		name = url[i+1:]
+		if strings.HasPrefix(prefix, "/") {
+			return false
+		}
+		for j := 0; j < len(prefix); j++ {
+			switch b := prefix[j]; {
+			case b == '/' || isNameChar(b) || strings.IndexByte(".~!$&()*+,;=", b) >= 0:
+			case b == '%' && j+2 < len(prefix) && isHex(prefix[j+1]) && isHex(prefix[j+2]):
+				j += 2
+			default:
+				return false
+			}
+		}
+	}
+	for _, ident := range strings.Split(name, ".") {
+		if ident == "" {
+			return false
+		}
+		for j := 0; j < len(ident); j++ {
+			if !isNameChar(ident[j]) {
+				return false
+			}
+		}
+	}
+	return true
+}
+
 func (e encoder) marshalAny(any protoreflect.Message) bool {
 	// Construct the embedded message.
 	fds := any.Descriptor().Fields()
 	fdType := fds.ByNumber(genid.Any_TypeUrl_field_number)
 	typeURL := any.Get(fdType).String()
+	if !isExpandableTypeURL(typeURL) {
+		// The URL cannot be written as a bracketed name that the text parser
+		// reads back: use the regular type_url/value form.
+		return false
+	}
 	mt, err := e.opts.Resolver.FindMessageByURL(typeURL)
 	if err != nil {
 		return false
